@@ -24,6 +24,9 @@ pub trait Prop: Sync {
 
 pub mod c01;
 pub mod c02;
+pub mod c03;
+pub mod c04;
+pub mod c05;
 pub mod c06;
 pub mod c07;
 pub mod c08;
@@ -44,6 +47,9 @@ pub fn all() -> Vec<&'static dyn Prop> {
     vec![
         &c01::C01,
         &c02::C02,
+        &c03::C03,
+        &c04::C04,
+        &c05::C05,
         &c06::C06,
         &c07::C07,
         &c08::C08,
